@@ -342,6 +342,8 @@ def universe(name, form):
         if form == 'bytes':
             return (97, 98, 99), (97, 98, 99)
         return ('a', 'b', 'c'), ('a', 'b', 'c')
+    if name == 'nones':     # falsy scalars, None included: values that ad-hoc "not seen yet" markers collide with
+        return (None, 0, ''), (None, 0, '')
     ks = ('A', 'A', 'B', 'B', 'C')
     if name == 'pairs':
         return tuple((k, i) for i, k in enumerate(ks)), ks
@@ -612,6 +614,8 @@ KEYED = (
     + [(f, u, 'fn', forms) for f in ('unique', 'redundant', 'bucketize')
        for u, forms in (('pairs', FORMS3), ('lists', FORMS3), ('objs', FORMS3))]
     + [(f, 'objs', 'attr', FORMS3) for f in ('unique', 'redundant', 'bucketize')]
+    + [(f, 'nones', k, FORMS3) for f in ('unique', 'redundant', 'bucketize') for k in ('none', 'fn')
+       if not (f == 'bucketize' and k == 'none')]
     + [('bucketize', 'pairs', 'list', ('list', 'tuple')), ('bucketize', 'lists', 'list', ('list', 'tuple')),
        ('bucketize', 'truth', 'default', FORMS3), ('bucketize', 'strs', 'fn', FORMS3),
        ('bucketize', 'flags', 'attr', FORMS3), ('bucketize', 'flags', 'fn', FORMS3),
